@@ -137,7 +137,7 @@ add(Contract(
                      "hasslot(pkt, self.field_name) and same(slot(pkt, self.field_name), sequence)",
                      # stop right after the first element for which the condition is true
                      "g_until_called and should_continue == (not bool(g_until))"],
-                    ghost={'g_o': 'offset'}),
+                    ghost={'g_o': 'offset'}, ghost_havoc=['g_until']),
     },
     # every element is parsed at the least aligned position at or after the end of the previous one
     call_asserts={'FIELD.unpack': ["aligned_from(arg_offset, g_o, intval(self.aligned_to))"]},
